@@ -745,6 +745,13 @@ fn generate_long(rng: &mut Rng, spec: Spec) -> Scenario {
     let utf8 = spec.patterns.iter().all(|p| std::str::from_utf8(p).is_ok());
     let filler: &[u8] = if utf8 { "q試Z".as_bytes() } else { &[0x11, 0xee, b'Q'] };
     let mut content = Vec::with_capacity(target + 64);
+    if rng.chance(1, 4) {
+        // dense: the stream is one pattern repeated, i.e. tens of thousands of matches
+        let p = spec.patterns.iter().min_by_key(|p| p.len()).unwrap().clone();
+        while content.len() < target {
+            content.extend_from_slice(&p);
+        }
+    }
     while content.len() < target {
         if rng.chance(1, 400) || (content.len() > 65_400 && content.len() < 65_700 && rng.chance(1, 6)) {
             let p = &spec.patterns[rng.below(spec.patterns.len())];
